@@ -1,14 +1,16 @@
 #!/bin/bash
-# Offline setup: build translator, regenerate coq/Gen from /repo, full Coq build, build harness binaries.
+# Offline setup: build translator, regenerate coq/Gen from the repo, full Coq build, build harness binaries.
 set -e
 cd "$(dirname "$0")"
 export GOFLAGS=-mod=mod GOPROXY=off
 unset GOTOOLCHAIN GOSUMDB
+REPO_DIR="${VERIF_REPO:-/repo}"
 mkdir -p bin evidence replays coq/Cases coq/Gen
 (cd translate && GOTOOLCHAIN=local go build -o ../bin/translate .)
-./bin/translate -repo "${VERIF_REPO:-/repo}" -cfg translate/targets.json -out coq
-(cd coq && coq_makefile -f _CoqProject -o Makefile >/dev/null && timeout 3000 make -j16 2>&1 | grep -v "^Closed under\|^COQC\|^COQDEP" || true)
-(cd coq && make -j16 >/dev/null)
-cp "${VERIF_REPO:-/repo}/go.sum" harness/go.sum
-(cd harness && for d in */; do d=${d%/}; [ -f "$d/main.go" ] && go build -tags verif -o ../bin/h_$d ./$d; done)
+./bin/translate -repo "$REPO_DIR" -cfg translate/targets.d -out coq
+python3 lib/mkcoqproject.py
+(cd coq && coq_makefile -f _CoqProject -o Makefile >/dev/null && (timeout 3000 make -j16 2>&1 | grep -v "^Closed under\|^COQC\|^COQDEP\|^Axioms:\|^  " || true) && make -j16 >/dev/null)
+sed "s#@REPO@#$REPO_DIR#" harness/go.mod.in > harness/go.mod
+cp "$REPO_DIR/go.sum" harness/go.sum
+(cd harness && for d in */; do d=${d%/}; if [ -f "$d/main.go" ]; then go build -tags verif -o ../bin/h_$d ./$d; fi; done)
 echo "setup ok"
